@@ -26,7 +26,7 @@ theorem advI_spec (f : α → Bool) (s : List α) (j : Int) (hj : j < s.length) 
   | succ fuel ih =>
     intro i hi hf hfb
     unfold advI
-    simp only [partLoopI, partAdvI, decide_eq_true_eq]
+    simp only [partLoopI, partAdvI, partIncI, partBreaks, decide_eq_true_eq]
     by_cases hij : i < j
     · rw [if_pos hij]
       obtain ⟨n, rfl⟩ := Int.eq_ofNat_of_zero_le hi
@@ -68,7 +68,7 @@ theorem advJ_spec (f : α → Bool) (s : List α) (i : Int) (hi : 0 ≤ i) :
   | succ fuel ih =>
     intro j hj hf hta
     unfold advJ
-    simp only [partLoopJ, partAdvJ, gt_iff_lt, decide_eq_true_eq]
+    simp only [partLoopJ, partAdvJ, partDecJ, partBreaks, gt_iff_lt, decide_eq_true_eq]
     by_cases hij : i < j
     · rw [if_pos hij]
       obtain ⟨n, rfl⟩ := Int.eq_ofNat_of_zero_le (show 0 ≤ j by omega)
@@ -113,7 +113,7 @@ theorem partOuter_spec (f : α → Bool) :
     simp only
     obtain ⟨j', e2, b1, b2, b3, b4⟩ := advJ_spec f s i' (by omega) s.length j hj (by omega) hta
     rw [e2]
-    simp only [partDone, ge_iff_le, decide_eq_true_eq]
+    simp only [partDone, partBreaks, partSwaps, partIncI, partDecJ, and_self, ge_iff_le, decide_eq_true_eq, if_true]
     by_cases hd : j' ≤ i'
     · rw [if_pos hd]
       refine ⟨s, i', rfl, List.Perm.refl _, by omega, by omega, a3, ?_⟩
@@ -196,7 +196,7 @@ theorem partition_perm_and_split (f : α → Bool) (s : List α) (hl64 : s.lengt
     unfold partJ0; exact wrap64_of_range (by omega) (by omega)   -- `len(s) - 1` is exact
   simp only [partI0, hj0]
   rw [e]
-  simp only [getI_nat, partFinal]
+  simp only [getI_nat, partFinal, partIncI, ne_eq, not_true_eq_false, if_false]
   by_cases hn : n < s.length
   · have hn' : n < s'.length := by omega
     rw [List.getElem?_eq_getElem hn']
